@@ -30,7 +30,8 @@ GridTags(nums, lens) ==
     \cup {Tag(cl, n, 0, <<>>) : cl \in {OPN, CLS}, n \in nums}
 G2 == GridTags(Nums, Lens)
 G3 == GridTags(Nums3, Lens3)
-InitGrid == c \in Strings(G2, 2) \cup [1..3 -> G3]
+InitGrid == \/ \E k \in 0..2 : c \in [1..k -> G2]
+            \/ c \in [1..3 -> G3]
 RECURSIVE SumHdrData(_)
 SumHdrData(l) == IF l = <<>> THEN 0 ELSE HdrLen(Head(l)) + Size(Head(l).data) + SumHdrData(Tail(l))
 InvGrid ==
@@ -45,7 +46,8 @@ WriteGrid ==
     ndJsonSerialize(IOEnv.OUT_FILE, [i \in 1..Len(L) |-> [l |-> AsSeq(L[i]), o |-> EncList(L[i])]])
 
 \* ---- Str ---------------------------------------------------------------------------------------------
-InitStr == c \in Strings(0..255, MaxStr) \cup Strings(Alpha, MaxAlpha)
+InitStr == \/ \E k \in 0..MaxStr : c \in [1..k -> 0..255]
+           \/ \E k \in 0..MaxAlpha : c \in [1..k -> Alpha]
 InvStr == NoOverRead(c) /\ StableOrInvalid(c) /\ DecodedWF(c)
 Expected(s) ==
     LET d == DecList(s)
@@ -60,7 +62,7 @@ WriteStr ==
 \* ---- Word --------------------------------------------------------------------------------------------
 SymCls == <<OPN, OPN, CLS, CLS, CTX, CTX>>
 SymTag(k) == Tag(SymCls[k + 1], IF k % 2 = 0 THEN CtxA ELSE CtxB, 0, <<>>)
-WordOf(w) == [i \in 1..Len(w) |-> SymTag(w[i])]
+WordOf(w) == Mat([i \in 1..Len(w) |-> SymTag(w[i])])
 RECURSIVE WordIndex(_, _)
 WordIndex(w, i) == IF i > Len(w) THEN 0 ELSE w[i] + 6 * WordIndex(w, i + 1)     \* first symbol = least digit
 \* a result of get_context as one number (an empty group carries no position: 1000)
@@ -68,13 +70,17 @@ PosCode(r) == CASE r.kind = "none" -> 0 [] r.kind = "invalid" -> 1 [] r.kind = "
                 [] OTHER -> IF r.to < r.from THEN 1000 ELSE 1000 + 10 * r.from + r.to
 AnyCode(r) == IF r.ok THEN r.taken ELSE 99
 Impl == ndJsonDeserialize(IOEnv.TRACE_FILE)     \* line L+1: results for all words of length L, by word index
-InitWord == c \in Strings(0..5, MaxWord)
+InitWord == \E k \in 0..MaxWord : c \in [1..k -> 0..5]
 OtherCtx == CHOOSE n \in 0..254 : n # CtxA /\ n # CtxB
 InvWord ==
-    LET l == WordOf(c) IN
-    /\ ContextIffBalanced(l, CtxA) /\ ContextIffBalanced(l, CtxB)
-    /\ GetContextPos(l, OtherCtx).kind \in {"none", "invalid"}
-    /\ AnyIffBalanced(l)
+    LET l == WordOf(c)
+        D == DepthVec(l)
+    IN
+    /\ ContextIffBalancedD(l, D, CtxA) /\ ContextIffBalancedD(l, D, CtxB)
+    /\ GetContextPos(l, OtherCtx).kind = (IF BalancedIn(D, 1, Len(l)) THEN "none" ELSE "invalid")
+    /\ AnyIffBalancedD(l, D)
+    /\ BalancedIn(D, 1, Len(l)) <=> Balanced(l)
+    /\ (Len(c) <= 5 => BalancedInOK(l))
 \* implementation results against the operators; prints one record per disagreeing word, never halts
 ImplWord ==
     LET l == WordOf(c)
